@@ -1,8 +1,11 @@
 """Translator for C20: the data and the straight-line parts of dune-common's dense-vector bindings are re-read from the
 source on every run and emitted as lean/DuneVerif/Gen/C20.lean (namespace DV.C20.Gen):
 
-* `normalizeIndex` (densevector.hh, the lambda both `__getitem__` and `__setitem__` go through): statement order, branch
-  conditions and the arithmetic, as a Lean function `Int -> Int -> Option Int`;
+* the index normalisation both `__getitem__(ssize_t)` and `__setitem__(ssize_t, x)` go through (densevector.hh), found by its
+  USE: the accessors' bodies must end in `return self[E]` / `self[E] = x`; `E` is either a call of one helper -- a local closure
+  or a function (template) of the header, whatever its name -- whose body is compiled, or the statements written out in the
+  accessor; both accessors must yield the same function.  Statement order, branch conditions and the arithmetic become a Lean
+  function `Int -> Int -> Option Int`;
 * the bodies of the `pybind11::int_` overloads of `__getitem__` / `__setitem__` (must be a bare `throw index_error`);
 * the four copy loops of `registerFieldVector` (tuple / list / args constructors, `copy(*args)`), the buffer constructor
   (checks, stride computation, loop bound, source index) and `registerDynamicVector`'s list constructor: initial value,
@@ -14,8 +17,20 @@ source on every run and emitted as lean/DuneVerif/Gen/C20.lean (namespace DV.C20
 
 `Props/C20.lean` proves (theorems `gen_*`) that these generated definitions coincide with the hand-written model for all
 sizes / indices / lengths, so an edit of a bound, a condition, a constant or the set of bound operations changes what Lean
-has to prove.  Formatting, renaming of variables / parameters, commuted operands and reordering of unrelated `cls.def`
-calls do not change the output in a way the proofs notice; anything outside the small grammar raises TranslateError."""
+has to prove.
+
+Tolerance (round five).  Bodies are NORMALISED before they are matched, and terms are emitted in a canonical spelling, so that
+equivalent source texts give the byte-identical Lean file: locals are named by position; operands of `+ * min max == !=` are
+ordered, `b > a` is `a < b`, `!(a < b)` is `b <= a`; `c ? a : b`, `if (c) n = e;` and `std::min/max` spellings of a minimum
+become `min`; value-preserving integral casts in all three syntaxes, `this->`, `x.empty()`; `const`/`auto` locals with
+side-effect-free initialisers (hoisted `static_cast<K *>(info.ptr)`, a named position, named strings, `s += e` steps) are
+substituted; guard clause = `if/else` = inverted test; `while` loop with a trailing `++i` = `for`; helper closure = helper
+function = code written out; `DV(n, K(0))`'s own `size()` is `n`; `cls.def(..).def(..)` chains; renamed parameters and
+captures.  Whatever remains different reaches Lean, whose proofs (`omega`, case splits) are insensitive to the order and
+spelling of tests, e.g. one combined range test followed by a conditional shift.  Anything outside the grammar -- a loop that
+is no counting loop, `FV v{K(0)}` (initializer list!), a pointer that is advanced, an unsigned index parameter, another
+exception type, an unknown `cls.def` form -- raises TranslateError: never guessed.  `--selftest` replays respellings that must
+stay quiet and edits that must not."""
 import os
 import re
 
@@ -70,7 +85,7 @@ def balanced(src, pos, open_ch="{", close_ch="}"):
 # mul := un (('*'|'/'|'%') un)* ; un := '!' un | '-' un | prim ; prim := INT | NAME | '(' or ')' | min '(' or ',' or ')'
 # Before tokenising, the C++ noise that has no arithmetic meaning here is rewritten (see `normalise`).
 # ------------------------------------------------------------------------------------------------------------------
-TOK = re.compile(r"\s*(<=|>=|==|!=|&&|\|\||[A-Za-z_][A-Za-z_0-9]*|\d+|[-+*/%!<>(),])")
+TOK = re.compile(r"\s*(<=|>=|==|!=|&&|\|\||[A-Za-z_][A-Za-z_0-9]*|\d+|[-+*/%!<>(),?:])")
 
 
 def tokenize(e, what):
@@ -87,11 +102,38 @@ def tokenize(e, what):
     return out
 
 
+def unparen(e):
+    """a Lean term without redundant outer parentheses (for comparing operands)"""
+    e = e.strip()
+    while e.startswith("(") and e.endswith(")"):
+        depth = 0
+        for k, c in enumerate(e):
+            depth += (c == "(") - (c == ")")
+            if depth == 0 and k < len(e) - 1:
+                return e
+        e = e[1:-1].strip()
+    return e
+
+
+def atom(e):
+    """parenthesise unless it is a name / literal or already parenthesised"""
+    u = unparen(e)
+    return u if re.fullmatch(r"[\w']+", u) else "(" + u + ")"
+
+
+def comm(op, a, b):
+    """commutative operation with its operands in a fixed (lexicographic) order: `n + idx` / `idx + n`, `min(len, size)` /
+    `min(size, len)`, `stride*i` / `i*stride` give the same term"""
+    a, b = sorted((atom(a), atom(b)))
+    return "(%s %s %s)" % ((op, a, b) if op in ("min", "max") else (a, op, b))
+
+
 class Expr:
     """mode 'Int' (C++ ssize_t arithmetic, truncating / and %) or 'Nat' (std::size_t, values far below 2^64)"""
 
     def __init__(self, text, what, env, mode):
         self.t, self.i, self.what, self.env, self.mode = tokenize(text, what), 0, what, env, mode
+        self.cmps = {}
 
     def peek(self):
         return self.t[self.i] if self.i < len(self.t) else None
@@ -108,11 +150,31 @@ class Expr:
             raise TranslateError("%s: %s has kind %s, expected %s" % (self.what, ctx, k, want))
 
     def parse(self, want):
-        e, k = self.p_or()
+        e, k = self.p_cond()
         if self.peek() is not None:
             raise TranslateError("%s: trailing tokens %r" % (self.what, self.t[self.i:]))
         self.need(k, want, "expression")
         return e
+
+    def p_cond(self):
+        """`c ? a : b`; the spellings of min / max (`a < b ? a : b`, `b > a ? a : b`, `a < b ? b : a`, ...) become min / max"""
+        c, k = self.p_or()
+        if self.peek() != "?":
+            return c, k
+        self.need(k, "B", "condition of ?:")
+        self.eat("?")
+        a, ka = self.p_cond()
+        self.eat(":")
+        b, kb = self.p_cond()
+        if ka != kb:
+            raise TranslateError("%s: branches of ?: have different kinds" % self.what)
+        if ka == "N" and c in self.cmps:
+            l, op, r = self.cmps[c]
+            if op in ("<", "<=", ">", ">=") and {unparen(a), unparen(b)} == {unparen(l), unparen(r)} and unparen(l) != unparen(r):
+                then_is_left = unparen(a) == unparen(l)
+                smaller = (op in ("<", "<=")) == then_is_left     # the then-branch is the smaller operand
+                return comm("min" if smaller else "max", a, b), "N"
+        return "(if %s then %s else %s)" % (c, a, b), ka
 
     def p_or(self):
         l, k = self.p_and()
@@ -141,9 +203,18 @@ class Expr:
             r, kr = self.p_add()
             self.need(k, "N", "operand of " + op)
             self.need(kr, "N", "operand of " + op)
-            lop = {"<": "<", "<=": "≤", ">": ">", ">=": "≥", "==": "=", "!=": "≠"}[op]
-            return "decide (%s %s %s)" % (l, lop, r), "B"
+            return self.cmp(l, op, r), "B"
         return l, k
+
+    def cmp(self, l, op, r):
+        """one spelling per comparison: `b > a` is `a < b`, `b >= a` is `a <= b`, operands of == / != in a fixed order"""
+        if op in (">", ">="):
+            l, op, r = r, {">": "<", ">=": "<="}[op], l
+        elif op in ("==", "!=") and (atom(r).isdigit(), atom(r)) < (atom(l).isdigit(), atom(l)):
+            l, r = r, l
+        res = "decide (%s %s %s)" % (l, {"<": "<", "<=": "≤", "==": "=", "!=": "≠"}[op], r)
+        self.cmps[res] = (l, op, r)
+        return res
 
     def p_add(self):
         l, k = self.p_mul()
@@ -152,7 +223,7 @@ class Expr:
             r, kr = self.p_mul()
             self.need(k, "N", "operand of " + op)
             self.need(kr, "N", "operand of " + op)
-            l = "(%s %s %s)" % (l, op, r)
+            l = comm("+", l, r) if op == "+" else "(%s - %s)" % (l, r)
         return l, k
 
     def p_mul(self):
@@ -163,7 +234,7 @@ class Expr:
             self.need(k, "N", "operand of " + op)
             self.need(kr, "N", "operand of " + op)
             if op == "*":
-                l = "(%s * %s)" % (l, r)
+                l = comm("*", l, r)
             elif self.mode == "Int":
                 l = "(%s %s %s)" % ("Int.tdiv" if op == "/" else "Int.tmod", l, r)
             else:
@@ -175,6 +246,10 @@ class Expr:
             self.eat()
             e, k = self.p_un()
             self.need(k, "B", "operand of !")
+            if e in self.cmps:      # integers: !(a < b) is b <= a, !(a == b) is a != b
+                l, op, r = self.cmps[e]
+                l, op, r = {"<": (r, "<=", l), "<=": (r, "<", l), "==": (l, "!=", r), "!=": (l, "==", r)}[op]
+                return self.cmp(l, op, r), "B"
             return "(!%s)" % e, "B"
         if self.peek() == "-":
             if self.mode != "Int":
@@ -188,26 +263,28 @@ class Expr:
     def p_prim(self):
         tok = self.eat()
         if tok == "(":
-            e, k = self.p_or()
+            e, k = self.p_cond()
             self.eat(")")
             return e, k
         if tok.isdigit():
             return tok, "N"
         if tok in ("MIN", "MAX"):
             self.eat("(")
-            a, ka = self.p_or()
+            a, ka = self.p_cond()
             self.eat(",")
-            b, kb = self.p_or()
+            b, kb = self.p_cond()
             self.eat(")")
             self.need(ka, "N", "argument of min/max")
             self.need(kb, "N", "argument of min/max")
-            return "(%s %s %s)" % ("min" if tok == "MIN" else "max", a, b), "N"
+            return comm("min" if tok == "MIN" else "max", a, b), "N"
         if tok in self.env:
             return self.env[tok], "N"
         raise TranslateError("%s: unknown name %r" % (self.what, tok))
 
 
 INTEGRAL = r"(?:pybind11::ssize_t|std::size_t|ssize_t|size_t|std::ptrdiff_t)"
+# type of a local whose initialiser the expression grammar has to accept anyway (`auto` = the type of that integral expression)
+DECL = r"(?:(?:const\s+)?(?:" + INTEGRAL + r"|auto)(?:\s+const)?)"
 
 
 def normalise(e, sizes):
@@ -218,6 +295,9 @@ def normalise(e, sizes):
     e = re.sub(r"static_cast\s*<\s*" + INTEGRAL + r"\s*>", " ", e)
     e = re.sub(r"std::min\s*(?:<\s*" + INTEGRAL + r"\s*>)?", " MIN", e)
     e = re.sub(r"std::max\s*(?:<\s*" + INTEGRAL + r"\s*>)?", " MAX", e)
+    e = re.sub(r"\(\s*" + INTEGRAL + r"\s*\)", " ", e)                       # C-style cast
+    e = re.sub(r"(?<![\w:])" + INTEGRAL + r"\s*(?=\()", " ", e)              # function-style cast
+    e = re.sub(r"\bthis\s*->\s*", " ", e)
     return e
 
 
@@ -240,12 +320,14 @@ def one_statement(body, i, what):
     n = len(body)
     while i < n and body[i].isspace():
         i += 1
-    m = re.compile(r"(if|for)\s*\(").match(body, i)
+    m = re.compile(r"(if|for|while)\s*\(").match(body, i)
     if m:
         head, j = balanced(body, m.end() - 1, "(", ")")
         inner, j = one_statement(body, j, what)
         if m.group(1) == "for":
             return ("for", head, inner), j
+        if m.group(1) == "while":
+            return ("while", head, inner), j
         k = j
         while k < n and body[k].isspace():
             k += 1
@@ -278,11 +360,137 @@ def flat(st):
     return st[1] if st[0] == "block" else [st]
 
 
+def ser(st):
+    """statement tree -> text"""
+    if st[0] == "simple":
+        return st[1] + ";"
+    if st[0] == "for":
+        return "for(%s) %s" % (st[1], ser(st[2]))
+    if st[0] == "while":
+        return "while(%s) %s" % (st[1], ser(st[2]))
+    if st[0] == "if":
+        return "if(%s) %s%s" % (st[1], ser(st[2]), (" else " + ser(st[3])) if st[3] is not None else "")
+    return "{" + " ".join(ser(x) for x in st[1]) + "}"
+
+
+def modifies(text, name):
+    """does `text` (possibly) change the variable `name` or let its address escape?"""
+    n = re.escape(name)
+    return bool(re.search(r"\b%s\s*(?:=(?!=)|\+=|-=|\*=|/=|%%=|<<=|>>=|&=|\|=|\^=|\+\+|--)" % n, text) or
+                re.search(r"(?:\+\+|--)\s*%s\b" % n, text) or re.search(r"(?<!&)&\s*%s\b" % n, text))
+
+
+def subst(st, name, repl):
+    pat = r"(?<![\w.>])%s\b" % re.escape(name)
+    if st[0] == "simple":
+        return ("simple", re.sub(pat, lambda m: repl, st[1]))
+    if st[0] in ("for", "while"):
+        return (st[0], re.sub(pat, lambda m: repl, st[1]), subst(st[2], name, repl))
+    if st[0] == "if":
+        return ("if", re.sub(pat, lambda m: repl, st[1]), subst(st[2], name, repl), subst(st[3], name, repl) if st[3] is not None else None)
+    return ("block", [subst(x, name, repl) for x in st[1]])
+
+
+def inline_locals(stmts, type_pat, pure, what, brackets=("(", ")")):
+    """`[const] <type> name = <init>;` with a side-effect-free initialiser (`pure(init)`) and a name that is never modified
+    afterwards is removed and its uses are replaced by `(<init>)` -- hoisting a loop invariant or naming an intermediate value
+    does not change the statement list the grammar sees.  Names the initialiser reads must not be modified afterwards either."""
+    out = list(stmts)
+    k = 0
+    while k < len(out):
+        st = out[k]
+        m = st[0] == "simple" and re.fullmatch(r"(?:const\s+)?(?:%s)\s*(?:const\s+)?(\w+)\s*=\s*(.*)" % type_pat, st[1])
+        if m and pure(m.group(2)):
+            name, init = m.group(1), m.group(2)
+            rest = " ".join(ser(x) for x in out[k + 1:])
+            reads = set(re.findall(r"[A-Za-z_]\w*", init))
+            if not modifies(rest, name) and not any(modifies(rest, r) for r in reads) and \
+                    not re.search(r"\b(?:%s)\s*[*&]?\s*(?:const\s+)?%s\b" % (type_pat, re.escape(name)), rest):
+                out = out[:k] + [subst(x, name, brackets[0] + init + brackets[1]) for x in out[k + 1:]]
+                continue
+        k += 1
+    return out
+
+
+def leaves(st):
+    """does control never continue after this statement (throw / return at its end)?"""
+    inner = flat(st)
+    if not inner:
+        return False
+    last = inner[-1]
+    if last[0] == "simple":
+        return re.match(r"(?:throw|return)\b", last[1]) is not None
+    if last[0] == "if":
+        return last[3] is not None and leaves(last[2]) and leaves(last[3])
+    return last[0] == "block" and leaves(last)
+
+
+def unnest_else(stmts):
+    """`if (c) <leaves> else S`  ->  `if (c) <leaves>` S   (guard clause and if/else are the same control flow)"""
+    out = []
+    for st in stmts:
+        if st[0] == "block":
+            out.append(("block", unnest_else(st[1])))
+        elif st[0] == "if" and st[3] is not None and leaves(st[2]):
+            out.append(("if", st[1], st[2], None))
+            out += unnest_else(flat(st[3]))
+        else:
+            out.append(st)
+    return out
+
+
+STRTYPE = r"std::string|auto"
+
+
+def string_body(body, what):
+    """body of a function that builds one string: named intermediate strings and `s += e;` steps are folded into the single
+    `return <concatenation>;` the constant extraction looks at (concatenation is associative)"""
+    stmts = split_statements(body, what)
+    merged = []
+    for st in stmts:
+        m = st[0] == "simple" and re.fullmatch(r"(\w+)\s*\+=\s*(.*)", st[1])
+        if m and merged and merged[-1][0] == "simple":
+            d = re.fullmatch(r"((?:const\s+)?(?:%s)\s+%s\s*=\s*)(.*)" % (STRTYPE, re.escape(m.group(1))), merged[-1][1])
+            if d and not re.search(r"\b%s\b" % re.escape(m.group(1)), m.group(2)):
+                merged[-1] = ("simple", "%s%s + %s" % (d.group(1), d.group(2), m.group(2)))
+                continue
+        merged.append(st)
+    pure = lambda e: not re.search(r"\+\+|--|(?<![=!<>+])=(?!=)", e)
+    stmts = inline_locals(merged, STRTYPE, pure, what, brackets=("\u27e6", "\u27e7"))
+    if len(stmts) != 1 or stmts[0][0] != "simple":
+        return body
+    return " " + stmts[0][1].replace("\u27e6", " ").replace("\u27e7", " ") + "; "
+
+
+def while_to_for(stmts):
+    """`T i = a; while (c) { body; ++i; }`  ->  `for (T i = a; c; ++i) { body }`  (i must not be changed in body; no continue)"""
+    out = []
+    k = 0
+    while k < len(stmts):
+        st = stmts[k]
+        if st[0] == "while" and out and out[-1][0] == "simple":
+            m = re.fullmatch(r"(" + INTEGRAL + r")\s+(\w+)\s*=\s*(.*)", out[-1][1])
+            inner = flat(st[2])
+            if m and inner and inner[-1][0] == "simple":
+                iv = m.group(2)
+                body = " ".join(ser(x) for x in inner[:-1])
+                after = " ".join(ser(x) for x in stmts[k + 1:])
+                if re.fullmatch(r"\+\+\s*%s|%s\s*\+\+|%s\s*\+=\s*1" % (iv, iv, iv), inner[-1][1]) and not modifies(body, iv) \
+                        and not re.search(r"\bcontinue\b", body) and not re.search(r"\b%s\b" % iv, after):
+                    out[-1] = ("for", "%s; %s; ++%s" % (out[-1][1], st[1], iv), ("block", inner[:-1]))
+                    k += 1
+                    continue
+        out.append(st)
+        k += 1
+    return out
+
+
 # ------------------------------------------------------------------------------------------------------------------
 # normalizeIndex
 # ------------------------------------------------------------------------------------------------------------------
 def compile_index(stmts, env, sizes, what, depth=0):
-    """statement list -> Lean expression of type Option Int (continuation style; `if` duplicates the rest)"""
+    """statement list -> Lean expression of type Option Int (continuation style; `if` duplicates the rest).  Locals are named
+    by position (`v1`, `v2`, ... along each path), so renaming a variable does not change the output."""
     ind = "  " * (depth + 1)
     if not stmts:
         raise TranslateError("%s: control reaches the end without return / throw" % what)
@@ -305,92 +513,245 @@ def compile_index(stmts, env, sizes, what, depth=0):
     m = re.fullmatch(r"return\s+(.*)", s)
     if m:
         return "some (%s)" % Expr(normalise(m.group(1), sizes), what, env, "Int").parse("N")
-    m = re.fullmatch(r"(?:const\s+)?" + INTEGRAL + r"\s+(\w+)\s*=\s*(.*)", s)
+    env2 = dict(env)
+    env2["#"] = env.get("#", 0) + 1
+    new = "v%d" % env2["#"]
+    m = re.fullmatch(DECL + r"\s+(\w+)\s*=\s*(.*)", s)
     if m:
         e = Expr(normalise(m.group(2), sizes), what, env, "Int").parse("N")
-        env2 = dict(env)
-        env2[m.group(1)] = "v_" + m.group(1)
-        return "let v_%s : Int := %s\n%s%s" % (m.group(1), e, ind, compile_index(rest, env2, sizes, what, depth))
+        env2[m.group(1)] = new
+        return "let %s : Int := %s\n%s%s" % (new, e, ind, compile_index(rest, env2, sizes, what, depth))
     m = re.fullmatch(r"(\w+)\s*(\+=|-=|=)\s*(.*)", s)
-    if m and m.group(1) in env:
+    if m and m.group(1) in env and m.group(1) not in ("SIZE", "#"):
         e = Expr(normalise(m.group(3), sizes), what, env, "Int").parse("N")
         cur = env[m.group(1)]
         val = {"=": e, "+=": "(%s + %s)" % (cur, e), "-=": "(%s - %s)" % (cur, e)}[m.group(2)]
-        new = "v_" + m.group(1) + "'" * (depth + 1 + len(rest))
-        new = re.sub(r"'+", lambda q: "_%d" % len(q.group(0)), new)
-        env2 = dict(env)
         env2[m.group(1)] = new
         return "let %s : Int := %s\n%s%s" % (new, val, ind, compile_index(rest, env2, sizes, what, depth))
     raise TranslateError("%s: statement outside the grammar: %r" % (what, s))
 
 
-def tr_normalize_index(src):
-    m = re.search(r"auto\s+normalizeIndex\s*=\s*\[\s*\]\s*\(\s*const\s+T\s*&\s*(\w+)\s*,\s*pybind11::ssize_t\s+(\w+)\s*\)"
-                  r"\s*->\s*std::size_t\s*", src)
+SIGNED = r"(?:pybind11::ssize_t|ssize_t|std::ptrdiff_t)"
+
+
+def split_params(params):
+    out, depth, cur = [], 0, ""
+    for c in params:
+        if c in "<([":
+            depth += 1
+        elif c in ">)]":
+            depth -= 1
+        if c == "," and depth == 0:
+            out.append(" ".join(cur.split()))
+            cur = ""
+        else:
+            cur += c
+    if cur.strip():
+        out.append(" ".join(cur.split()))
+    return out
+
+
+def lambda_at(src, pos, what):
+    """src[pos] == '[' of a lambda expression -> (captures, [parameters], trailing return type or None, body, end)"""
+    caps, j = balanced(src, pos, "[", "]")
+    m = re.compile(r"\s*(?=\()").match(src, j)
     if not m:
-        raise TranslateError("densevector.hh: lambda normalizeIndex(const T &, pybind11::ssize_t) -> std::size_t not found")
-    body, _ = balanced(src, m.end())
-    selfn, idx = m.group(1), m.group(2)
-    sizes = [(r"\b%s\s*\.\s*size\s*\(\s*\)" % re.escape(selfn), "SIZE")]
-    lean = compile_index(split_statements(body, "normalizeIndex"), {idx: "i", "SIZE": "size"}, sizes, "normalizeIndex")
-    # both item accessors must go through it, on the ssize_t overload
-    for name, pat in (("__getitem__", r'"__getitem__"\s*,\s*\[\s*normalizeIndex\s*\]\s*\(\s*const\s+T\s*&\s*(\w+)\s*,\s*'
-                                      r'pybind11::ssize_t\s+(\w+)\s*\)\s*->\s*ValueType\s*'),
-                      ("__setitem__", r'"__setitem__"\s*,\s*\[\s*normalizeIndex\s*\]\s*\(\s*T\s*&\s*(\w+)\s*,\s*'
-                                      r'pybind11::ssize_t\s+(\w+)\s*,\s*ValueType\s+(\w+)\s*\)\s*')):
-        mm = re.search(pat, src)
+        raise TranslateError("%s: lambda without parameter list" % what)
+    params, j = balanced(src, m.end(), "(", ")")
+    m = re.compile(r"\s*(?:->\s*([\w:<>, ]+?)\s*)?(?=\{)").match(src, j)
+    if not m:
+        raise TranslateError("%s: lambda outside the grammar at %r" % (what, src[j:j + 40]))
+    body, end = balanced(src, m.end())
+    return caps, split_params(params), m.group(1), body, end
+
+
+def find_index_helper(src, name, what):
+    """the function the item accessors delegate to: a local closure `auto name = [...] (const T &s, ssize_t i) [-> R] {...}` or a
+    function (template) `R name (const T &s, ssize_t i) {...}` of the same header -> (self name, index name, body)"""
+    cands = []
+    for m in re.finditer(r"\b(?:const\s+)?auto\s+(?:const\s+)?%s\s*=\s*(?=\[)" % re.escape(name), src):
+        _, params, ret, body, _ = lambda_at(src, m.end(), what)
+        cands.append((params, ret, body))
+    for m in re.finditer(r"(?<![\w:.>])(" + INTEGRAL + r"|auto)\s+%s\s*(?=\()" % re.escape(name), src):
+        params, j = balanced(src, m.end(), "(", ")")
+        mm = re.compile(r"\s*(?:noexcept\s*)?(?:->\s*([\w:<>, ]+?)\s*)?(?=\{)").match(src, j)
         if not mm:
-            raise TranslateError("densevector.hh: %s(ssize_t) capturing normalizeIndex not found" % name)
-        b, _ = balanced(src, mm.end())
-        b = " ".join(b.split())
-        s, i = mm.group(1), mm.group(2)
-        acc = r"%s\s*\[\s*normalizeIndex\s*\(\s*%s\s*,\s*%s\s*\)\s*\]" % (s, s, i)
-        want = (r"return\s+%s\s*;" % acc) if name == "__getitem__" else (r"%s\s*=\s*%s\s*;" % (acc, mm.group(3)))
-        if not re.fullmatch(want, b):
-            raise TranslateError("densevector.hh: body of %s(ssize_t) is not the plain access through normalizeIndex: %r"
-                                 % (name, b))
-    # the overloads for Python integers beyond ssize_t
-    for name, pat in (("__getitem__", r'"__getitem__"\s*,\s*\[\s*\]\s*\(\s*const\s+T\s*&\s*\w*\s*,\s*pybind11::int_\s*\w*\s*\)'
-                                      r'\s*->\s*ValueType\s*'),
-                      ("__setitem__", r'"__setitem__"\s*,\s*\[\s*\]\s*\(\s*T\s*&\s*\w*\s*,\s*pybind11::int_\s*\w*\s*,\s*'
-                                      r'ValueType\s*\w*\s*\)\s*')):
-        mm = re.search(pat, src)
-        if not mm:
+            continue    # a declaration or a call
+        body, _ = balanced(src, mm.end())
+        cands.append((split_params(params), mm.group(1) or m.group(1), body))
+    if len(cands) != 1:
+        raise TranslateError("%s: %d definitions of the index helper %r found" % (what, len(cands), name))
+    params, ret, body = cands[0]
+    if ret is not None and not re.fullmatch(INTEGRAL + r"|auto", ret.strip()):
+        raise TranslateError("%s: index helper %r returns %r" % (what, name, ret))
+    if len(params) != 2:
+        raise TranslateError("%s: index helper %r does not take (vector, index)" % (what, name))
+    m0 = re.fullmatch(r"(?:const\s+(?:T|auto)|(?:T|auto)\s+const)\s*&\s*(\w+)", params[0])
+    m1 = re.fullmatch(r"(?:const\s+)?" + SIGNED + r"(?:\s+const)?\s+(\w+)", params[1])
+    if not m0 or not m1:
+        raise TranslateError("%s: index helper %r has parameters %r" % (what, name, params))
+    return m0.group(1), m1.group(1), body
+
+
+def tr_normalize_index(src):
+    """both item accessors with a signed index must normalise it in the same way: through one helper (closure or function of
+    the header), or in place; the Lean function is compiled from whatever statements lead to the index expression"""
+    results = {}
+    for name in ("__getitem__", "__setitem__"):
+        what = "densevector.hh %s" % name
+        idx_seen = big_seen = 0
+        for m in re.finditer(r'"%s"\s*,\s*(?=\[)' % name, src):
+            caps, params, ret, body, _ = lambda_at(src, m.end(), what)
+            want_n = 2 if name == "__getitem__" else 3
+            if len(params) != want_n:
+                raise TranslateError("%s: %d parameters" % (what, len(params)))
+            selfpat = r"(?:const\s+(?:T|auto)|(?:T|auto)\s+const)\s*&\s*(\w*)" if name == "__getitem__" else r"(?:T|auto)\s*&\s*(\w*)"
+            m0 = re.fullmatch(selfpat, params[0])
+            if not m0:
+                raise TranslateError("%s: first parameter %r" % (what, params[0]))
+            if name == "__getitem__" and (ret is None or ret.strip() != "ValueType"):
+                raise TranslateError("%s: return type %r is not ValueType" % (what, ret))
+            if re.fullmatch(r"(?:const\s+)?pybind11::int_(?:\s+const)?\s*&?\s*\w*", params[1]):
+                # the overload for Python integers beyond ssize_t
+                big_seen += 1
+                if not re.fullmatch(r"\s*throw\s+pybind11::index_error\s*\(\s*\)\s*;\s*", body):
+                    raise TranslateError("densevector.hh: %s(pybind11::int_) does more than throw index_error: %r" % (name, body))
+                continue
+            m1 = re.fullmatch(r"(?:const\s+)?" + SIGNED + r"(?:\s+const)?\s+(\w+)", params[1])
+            if not m1 or not m0.group(1):
+                raise TranslateError("%s: overload with parameters %r is outside the grammar" % (what, params))
+            idx_seen += 1
+            s, i = m0.group(1), m1.group(1)
+            xv = None
+            if name == "__setitem__":
+                m2 = re.fullmatch(r"(?:const\s+)?ValueType(?:\s+const)?\s*&?\s*(\w+)", params[2])
+                if not m2:
+                    raise TranslateError("%s: value parameter %r" % (what, params[2]))
+                xv = m2.group(1)
+            call = r"(?:(?:\w+::)*)(\w+)\s*\(\s*%s\s*,\s*%s\s*\)" % (re.escape(s), re.escape(i))
+            stmts = split_statements(body, what)
+            stmts = inline_locals(stmts, INTEGRAL + r"|auto", lambda e: re.fullmatch(call, e.strip()) is not None, what)
+            if not stmts or stmts[-1][0] != "simple":
+                raise TranslateError("%s: body does not end with the access" % what)
+            last = stmts[-1][1]
+            if name == "__getitem__":
+                ma = re.fullmatch(r"return\s+%s\s*\[(.*)\]" % re.escape(s), last)
+            else:
+                ma = re.fullmatch(r"%s\s*\[(.*)\]\s*=\s*%s" % (re.escape(s), re.escape(xv)), last)
+            if not ma or ma.group(1).count("[") != ma.group(1).count("]"):
+                raise TranslateError("densevector.hh: body of %s(ssize_t) is not the plain access: %r" % (name, last))
+            e = unparen_src(ma.group(1))
+            mc = re.fullmatch(call, e)
+            if mc and len(stmts) == 1:
+                hs, hi, hbody = find_index_helper(src, mc.group(1), what)
+                sizes = [(r"\b%s\s*\.\s*size\s*\(\s*\)" % re.escape(hs), "SIZE")]
+                lean = compile_index(split_statements(hbody, what), {hi: "i", "SIZE": "size"}, sizes, "normalizeIndex")
+            else:
+                sizes = [(r"\b%s\s*\.\s*size\s*\(\s*\)" % re.escape(s), "SIZE")]
+                lean = compile_index(stmts[:-1] + [("simple", "return " + e)], {i: "i", "SIZE": "size"}, sizes, what)
+            results[name] = lean
+        if idx_seen != 1:
+            raise TranslateError("densevector.hh: %d overloads %s(ssize_t) found, expected 1" % (idx_seen, name))
+        if big_seen != 1:
             raise TranslateError("densevector.hh: %s(pybind11::int_) overload not found" % name)
-        b, _ = balanced(src, mm.end())
-        if not re.fullmatch(r"\s*throw\s+pybind11::index_error\s*\(\s*\)\s*;\s*", b):
-            raise TranslateError("densevector.hh: %s(pybind11::int_) does more than throw index_error: %r" % (name, b))
-    return lean
+    if results["__getitem__"] != results["__setitem__"]:
+        raise TranslateError("densevector.hh: __getitem__ and __setitem__ normalise the index differently")
+    return results["__getitem__"]
+
+
+def unparen_src(e):
+    e = e.strip()
+    while e.startswith("(") and e.endswith(")"):
+        try:
+            inner, end = balanced(e, 0, "(", ")")
+        except TranslateError:
+            return e
+        if end != len(e):
+            return e
+        e = inner.strip()
+    return e
 
 
 # ------------------------------------------------------------------------------------------------------------------
 # copy loops
 # ------------------------------------------------------------------------------------------------------------------
-def tr_loop(body, what, sizes, src_name, allow_prefix=False):
+ALLOC_PTR = [r"(?:FV|DV|auto)\s*\*\s*(?:const\s+)?(\w+)\s*=\s*new\s+(?:FV|DV)\s*\((.*)\)",
+             r"auto\s+(?:const\s+)?(\w+)\s*=\s*new\s+(?:FV|DV)\s*\((.*)\)"]
+ALLOC_VAL = [r"(?:FV|DV)\s+(\w+)\s*\((.*)\)", r"(?:FV|DV|auto)\s+(\w+)\s*=\s*(?:FV|DV)\s*\((.*)\)"]
+# note: `FV v{ K(0) }` is NOT the same (initializer-list constructor), braces stay outside the grammar
+
+
+def tr_loop(body, what, sizes, src_name, allow_prefix=False, selfname=None, extra=None):
     """`<zero-initialised vector>; [const] size_t sz = E; for (size_t i = E0; i < E1; ++i) dst[Ed] = src[Es].cast<K>(); return`
-    -> dict(init, first, bound, dst, src) of Lean terms over (size len : Nat) / (i : Nat)"""
-    stmts = split_statements(body, what)
+    -> dict(init, first, bound, dst, src) of Lean terms over (size len : Nat) / (i : Nat).
+    Accepted respellings: declarations of integral locals anywhere (they are substituted), `if (c) n = e;` on such a local,
+    `while` loop with a trailing `++i`, the early exit of `copy` as guard clause / with `else` / inverted, `auto`, pointer or
+    value vector, commuted loop test, `i++` / `i += 1`, `.cast<K>()` / `.template cast<K>()` / `pybind11::cast<K>(..)`.
+    `extra` (buffer constructor): names the source index may use besides the loop counter; it is signed arithmetic then."""
+    stmts = body if isinstance(body, list) else split_statements(body, what)
+    stmts = while_to_for(stmts)
+    # the vector that is filled: its `.size()` is the template parameter
+    dstvar, is_ptr = None, False
+    for st in stmts + [x for st in stmts if st[0] == "if" for br in st[2:] if br is not None for x in flat(br)]:
+        if st[0] == "simple":
+            for pats, ptr in ((ALLOC_PTR, True), (ALLOC_VAL, False)):
+                for pat in pats:
+                    m = re.fullmatch(pat, st[1])
+                    if m and dstvar is None:
+                        dstvar, is_ptr = m.group(1), ptr
+    if dstvar is None:
+        raise TranslateError("%s: the vector that is filled is not declared in the grammar's forms" % what)
+    d = re.escape(dstvar)
+    own_size = "SIZE"
+    for st in stmts:
+        for pat in (ALLOC_PTR + ALLOC_VAL) if st[0] == "simple" else ():
+            m = re.fullmatch(pat, st[1])
+            if m and len(split_params(m.group(2))) == 2:
+                own_size = "(" + split_params(m.group(2))[0] + ")"     # DV(n, K(0)): its size() is n
+    sizes = [(r"\(\s*\*\s*%s\s*\)\s*\.\s*size\s*\(\s*\)|\b%s\s*->\s*size\s*\(\s*\)" % (d, d) if is_ptr
+              else r"\b%s\s*\.\s*size\s*\(\s*\)" % d, own_size)] + list(sizes)
     env = {"SIZE": "size", "LEN": "len"}
     res = {"prefix": None}
     state = 0
-    dstvar = None
+
+    def selfcopy(st):
+        inner = flat(st)
+        return len(inner) == 1 and inner[0][0] == "simple" and selfname is not None and \
+            re.fullmatch(r"return\s+(?:FV\s*\(\s*%s\s*\)|%s)" % (selfname, selfname), inner[0][1]) is not None
+
+    # early exit of `copy`: normalise to the guard clause `if (c) return FV(self);` followed by the rest
+    if allow_prefix:
+        for k, st in enumerate(stmts):
+            if st[0] != "if":
+                continue
+            if selfcopy(st[2]):
+                stmts = stmts[:k] + [("if", st[1], st[2], None)] + (flat(st[3]) if st[3] is not None else []) + stmts[k + 1:]
+            elif st[3] is None and k + 2 == len(stmts) and selfcopy(stmts[k + 1]):
+                stmts = stmts[:k] + [("if", "!(" + st[1] + ")", stmts[k + 1], None)] + flat(st[2])
+            elif st[3] is not None and selfcopy(st[3]):
+                stmts = stmts[:k] + [("if", "!(" + st[1] + ")", st[3], None)] + flat(st[2]) + stmts[k + 1:]
+            break
     for st in stmts:
-        if st[0] == "if" and allow_prefix and state == 0 and res["prefix"] is None:
-            c = Expr(normalise(st[1], sizes), what, env, "Nat").parse("B")
-            inner = flat(st[2])
-            if st[3] is not None or len(inner) != 1 or inner[0][0] != "simple" or \
-                    not re.fullmatch(r"return\s+FV\s*\(\s*self\s*\)", inner[0][1]):
-                raise TranslateError("%s: unexpected early exit %r" % (what, st))
-            res["prefix"] = c
+        if st[0] == "if" and allow_prefix and state == 0 and res["prefix"] is None and st[3] is None and selfcopy(st[2]):
+            res["prefix"] = Expr(normalise(st[1], sizes), what, env, "Nat").parse("B")
             continue
+        if st[0] == "if" and st[3] is None:
+            # `if (c) n = e;` on an integral local
+            inner = flat(st[2])
+            m = len(inner) == 1 and inner[0][0] == "simple" and re.fullmatch(r"(\w+)\s*=\s*(.*)", inner[0][1])
+            if m and m.group(1) in env and m.group(1) not in ("SIZE", "LEN") and state < 2:
+                env[m.group(1)] = atom(Expr(normalise("(%s) ? (%s) : %s" % (st[1], m.group(2), m.group(1)), sizes),
+                                            what, env, "Nat").parse("N"))
+                continue
+            raise TranslateError("%s: unexpected conditional %r" % (what, ser(st)))
         if st[0] == "simple":
             s = st[1]
-            m = re.fullmatch(r"(?:FV|DV)\s*\*\s*(\w+)\s*=\s*new\s+(?:FV|DV)\s*\((.*)\)", s) or \
-                re.fullmatch(r"(?:FV|DV)\s+(\w+)\s*\((.*)\)", s)
-            if m and state == 0:
-                dstvar = m.group(1)
-                args = [a.strip() for a in m.group(2).split(",")]
-                mm = re.fullmatch(r"K\s*\(\s*(\d+)\s*\)", args[-1])
+            m = None
+            for pat in (ALLOC_PTR if is_ptr else ALLOC_VAL):
+                m = m or re.fullmatch(pat, s)
+            if m and state == 0 and m.group(1) == dstvar:
+                args = split_params(m.group(2))
+                mm = re.fullmatch(r"K\s*\(\s*(\d+)\s*\)", args[-1]) if args else None
                 if not mm:
                     raise TranslateError("%s: vector is not initialised with K(<literal>): %r" % (what, s))
                 res["init"] = mm.group(1)
@@ -400,11 +761,16 @@ def tr_loop(body, what, sizes, src_name, allow_prefix=False):
                     raise TranslateError("%s: unexpected constructor arguments %r" % (what, s))
                 state = 1
                 continue
-            m = re.fullmatch(r"(?:const\s+)?" + INTEGRAL + r"\s+(\w+)\s*=\s*(.*)", s)
-            if m:
-                env[m.group(1)] = "(" + Expr(normalise(m.group(2), sizes), what, env, "Nat").parse("N") + ")"
+            m = re.fullmatch(DECL + r"\s+(\w+)\s*=\s*(.*)", s)
+            if m and state < 2:
+                env[m.group(1)] = atom(Expr(normalise(m.group(2), sizes), what, env, "Nat").parse("N"))
                 continue
-            if re.fullmatch(r"pybind11::buffer_info\s+\w+\s*=\s*\w+\s*\.\s*request\s*\(\s*\)", s):
+            m = re.fullmatch(r"(\w+)\s*=\s*(.*)", s)
+            if m and m.group(1) in env and m.group(1) not in ("SIZE", "LEN") and state < 2:
+                env[m.group(1)] = atom(Expr(normalise(m.group(2), sizes), what, env, "Nat").parse("N"))
+                continue
+            if re.fullmatch(r"(?:const\s+)?(?:pybind11::buffer_info|auto)\s+(?:const\s+)?\w+\s*=\s*\w+\s*\.\s*request\s*\(\s*\)", s) \
+                    and extra is not None and state == 0:
                 continue
             m = re.fullmatch(r"return\s+(\w+)", s)
             if m and state == 2 and m.group(1) == dstvar:
@@ -436,14 +802,25 @@ def tr_loop(body, what, sizes, src_name, allow_prefix=False):
             if len(inner) != 1 or inner[0][0] != "simple":
                 raise TranslateError("%s: loop body is not one assignment" % what)
             s = inner[0][1]
+            if modifies(s, iv):
+                raise TranslateError("%s: loop body changes the counter: %r" % (what, s))
             ienv = dict(env)
             ienv[iv] = "i"
-            m = re.fullmatch(r"(?:\(\s*\*\s*%s\s*\)|%s)\s*\[(.*?)\]\s*=\s*%s\s*\[(.*)\]\s*(?:\.\s*template\s+cast\s*<\s*K\s*>\s*\(\s*\))?"
-                             % (dstvar, dstvar, src_name), s)
+            dpat = (r"\(\s*\*\s*%s\s*\)" % d) if is_ptr else d
+            if extra is not None:
+                m = re.fullmatch(r"%s\s*\[(.*?)\]\s*=\s*%s\s*\[(.*)\]" % (dpat, src_name), s)
+            else:
+                m = re.fullmatch(r"%s\s*\[(.*?)\]\s*=\s*%s\s*\[(.*)\]\s*\.\s*(?:template\s+)?cast\s*<\s*K\s*>\s*\(\s*\)" % (dpat, src_name), s) or \
+                    re.fullmatch(r"%s\s*\[(.*?)\]\s*=\s*pybind11::cast\s*<\s*K\s*>\s*\(\s*%s\s*\[(.*)\]\s*\)" % (dpat, src_name), s)
             if not m:
                 raise TranslateError("%s: loop body outside the grammar: %r" % (what, s))
             res["dst"] = Expr(normalise(m.group(1), sizes), what, ienv, "Nat").parse("N")
-            res["src"] = Expr(normalise(m.group(2), sizes), what, ienv, "Int" if "STRIDE" in env else "Nat").parse("N")
+            if extra is not None:
+                senv = {iv: "i"}
+                senv.update(extra)
+                res["src"] = Expr(normalise(m.group(2), sizes), what, senv, "Int").parse("N")
+            else:
+                res["src"] = Expr(normalise(m.group(2), sizes), what, ienv, "Nat").parse("N")
             state = 2
             continue
         raise TranslateError("%s: unexpected statement %r in state %d" % (what, st[0], state))
@@ -461,18 +838,29 @@ def lean_loop(name, r, doc):
 def tr_fvector(src):
     out = []
     found = {}
-    for kind, pat, var in (("Tuple", r"pybind11::init\s*\(\s*\[\s*\]\s*\(\s*pybind11::tuple\s+(\w+)\s*\)\s*", None),
-                           ("List", r"pybind11::init\s*\(\s*\[\s*\]\s*\(\s*pybind11::list\s+(\w+)\s*\)\s*", None),
-                           ("Args", r"pybind11::init\s*\(\s*\[\s*\]\s*\(\s*pybind11::args\s+(\w+)\s*\)\s*", None),
-                           ("Copy", r'"copy"\s*,\s*\[\s*\]\s*\(\s*FV\s*&\s*self\s*,\s*pybind11::args\s+(\w+)\s*\)\s*', None)):
-        m = re.search(pat, src)
-        if not m:
+    for kind, pat in (("Tuple", r"pybind11::init\s*\(\s*(?=\[)"), ("List", r"pybind11::init\s*\(\s*(?=\[)"),
+                      ("Args", r"pybind11::init\s*\(\s*(?=\[)"), ("Copy", r'"copy"\s*,\s*(?=\[)')):
+        ptype = "pybind11::" + ("args" if kind == "Copy" else kind.lower())
+        hits = []
+        for m in re.finditer(pat, src):
+            _, params, ret, body, _ = lambda_at(src, m.end(), "fvector.hh " + kind)
+            if kind == "Copy":
+                m0 = len(params) == 2 and re.fullmatch(r"(?:const\s+FV|FV(?:\s+const)?)\s*&\s*(\w+)", params[0])
+                mx = m0 and re.fullmatch(r"(?:const\s+)?%s(?:\s+const)?\s*&?\s*(\w+)" % ptype, params[1])
+                if mx:
+                    hits.append((mx.group(1), m0.group(1), body))
+            else:
+                mx = len(params) == 1 and re.fullmatch(r"(?:const\s+)?%s(?:\s+const)?\s*&?\s*(\w+)" % ptype, params[0])
+                if mx:
+                    hits.append((mx.group(1), None, body))
+        if len(hits) != 1:
             raise TranslateError("fvector.hh: %s constructor / copy not found" % kind)
-        body, _ = balanced(src, m.end())
-        x = m.group(1)
-        sizes = [(r"\b%s\s*\.\s*size\s*\(\s*\)" % re.escape(x), "LEN"), (r"\b(?:v|self)\s*\.\s*size\s*\(\s*\)", "SIZE"),
-                 (r"\bsize\b", "SIZE")]
-        r, _ = tr_loop(body, "fvector.hh " + kind, sizes, re.escape(x), allow_prefix=(kind == "Copy"))
+        x, selfname, body = hits[0]
+        sizes = [(r"\b%s\s*\.\s*size\s*\(\s*\)" % re.escape(x), "LEN"), (r"\b%s\s*\.\s*empty\s*\(\s*\)" % re.escape(x), "(LEN == 0)")]
+        if selfname:
+            sizes.append((r"\b%s\s*\.\s*size\s*\(\s*\)" % re.escape(selfname), "SIZE"))
+        sizes.append((r"\bsize\b", "SIZE"))
+        r, _ = tr_loop(body, "fvector.hh " + kind, sizes, re.escape(x), allow_prefix=(kind == "Copy"), selfname=selfname)
         found[kind] = r
         out.append(lean_loop("loop" + kind, r, "fvector.hh: copy loop of the %s" %
                              ("`copy(*args)` method" if kind == "Copy" else kind.lower() + " constructor")))
@@ -481,17 +869,17 @@ def tr_fvector(src):
     out.append("/-- fvector.hh `copy(*args)`: when the copy of `self` is returned instead of running the loop -/\n"
                "def copyReturnsSelf (size len : Nat) : Bool := %s\n" % found["Copy"]["prefix"])
     # buffer constructor
-    m = re.search(r"pybind11::init\s*\(\s*\[\s*\]\s*\(\s*pybind11::buffer\s+(\w+)\s*\)\s*", src)
+    m = re.search(r"pybind11::init\s*\(\s*\[\s*\]\s*\(\s*(?:const\s+)?pybind11::buffer(?:\s+const)?\s*&?\s*(\w+)\s*\)\s*", src)
     if not m:
         raise TranslateError("fvector.hh: buffer constructor not found")
     body, _ = balanced(src, m.end())
-    mi = re.search(r"pybind11::buffer_info\s+(\w+)\s*=", body)
+    mi = re.search(r"(?:pybind11::buffer_info|auto)\s+(?:const\s+)?(\w+)\s*=\s*%s\s*\.\s*request\s*\(\s*\)" % m.group(1), body)
     if not mi:
         raise TranslateError("fvector.hh buffer constructor: no buffer_info")
     info = mi.group(1)
     # the two checks, in any order, each `if (cond) throw pybind11::value_error(...)`
     checks = []
-    stmts = split_statements(body, "fvector.hh Buffer")
+    stmts = unnest_else(split_statements(body, "fvector.hh Buffer"))
     rest = []
     for st in stmts:
         if st[0] == "if":
@@ -519,7 +907,7 @@ def tr_fvector(src):
     stride_expr, stride_name, body2 = None, None, []
     for st in rest:
         if st[0] == "simple":
-            mm = re.fullmatch(r"(?:const\s+)?" + INTEGRAL + r"\s+(\w+)\s*=\s*(.*)", st[1])
+            mm = re.fullmatch(DECL + r"\s+(\w+)\s*=\s*(.*)", st[1])
             if mm and re.search(r"\bstrides\b", mm.group(2)):
                 stride_name = mm.group(1)
                 stride_expr = Expr(normalise(mm.group(2), sizes), "fvector.hh Buffer stride",
@@ -529,18 +917,16 @@ def tr_fvector(src):
     if stride_expr is None:
         raise TranslateError("fvector.hh buffer constructor: stride computation not found")
 
-    def ser(st):
-        if st[0] == "simple":
-            return st[1] + ";"
-        if st[0] == "for":
-            return "for(%s) %s" % (st[1], ser(st[2]))
-        if st[0] == "block":
-            return "{" + " ".join(ser(s) for s in st[1]) + "}"
-        raise TranslateError("fvector.hh buffer constructor: unexpected statement")
-    text = " ".join(ser(s) for s in body2)
-    text = re.sub(r"static_cast\s*<\s*K\s*\*\s*>\s*\(\s*%s\s*\.\s*ptr\s*\)" % info, "PTR", text)
+    # a named / hoisted `static_cast<K *>(info.ptr)` is the same pointer
+    ptrcast = r"(?:(?:static_cast|reinterpret_cast)\s*<\s*(?:const\s+)?K\s*(?:const\s*)?\*\s*>\s*\(\s*%s\s*\.\s*ptr\s*\)" \
+              r"|\(\s*(?:const\s+)?K\s*(?:const\s*)?\*\s*\)\s*%s\s*\.\s*ptr\b)" % (info, info)
+    body2 = inline_locals(body2, r"K\s*\*|K\s+const\s*\*|auto\s*\*?", lambda e: re.fullmatch(ptrcast, e.strip()) is not None,
+                          "fvector.hh Buffer")
+    text = " ".join(ser(x) for x in body2)
+    text = re.sub(ptrcast, "PTR", text)
+    text = re.sub(r"\(\s*PTR\s*\)", "PTR", text)
     text = re.sub(r"\b%s\b" % stride_name, "STRIDE", text)
-    r, env = tr_loop_buf(text, sizes)
+    r, env = tr_loop(text, "fvector.hh Buffer", sizes, "PTR", extra={"STRIDE": "stride"})
     out.append("/-- fvector.hh buffer constructor: element stride from `strides[0]` (bytes) and the item size -/\n"
                "def bufStride (stride0 w : Int) : Int := %s\n" % stride_expr)
     out.append("/-- fvector.hh buffer constructor: zero-initialised, `dst[dst i] = ptr[src i stride]` for `first ≤ i < bound` -/\n"
@@ -552,6 +938,7 @@ def tr_fvector(src):
     if not m:
         raise TranslateError("fvector.hh: to_string(FieldVector) not found")
     body, _ = balanced(src, m.end())
+    body = string_body(body, "fvector.hh to_string")
     mm = re.fullmatch(r'\s*return\s*"((?:[^"\\]|\\.)*)"\s*\+\s*join\s*\(\s*"((?:[^"\\]|\\.)*)"\s*,(.*),\s*(\w+)\s*\.\s*begin\s*\(\s*\)\s*,'
                       r'\s*(\w+)\s*\.\s*end\s*\(\s*\)\s*\)\s*\+\s*"((?:[^"\\]|\\.)*)"\s*;\s*', body, flags=re.S)
     if not mm or mm.group(4) != m.group(1) or mm.group(5) != m.group(1):
@@ -565,6 +952,7 @@ def tr_fvector(src):
     if not mr:
         raise TranslateError("fvector.hh: __repr__ not found")
     body, _ = balanced(src, mr.end())
+    body = string_body(body, "fvector.hh __repr__")
     mm = re.fullmatch(r'\s*return\s*"((?:[^"\\]|\\.)*)"\s*\+\s*to_string\s*\(\s*size\s*\)\s*\+\s*"((?:[^"\\]|\\.)*)"\s*\+\s*'
                       r'to_string\s*\(\s*%s\s*\)\s*;\s*' % mr.group(1), body)
     if not mm:
@@ -575,72 +963,10 @@ def tr_fvector(src):
     if not ms:
         raise TranslateError("fvector.hh: __str__ not found")
     body, _ = balanced(src, ms.end())
+    body = string_body(body, "fvector.hh __str__")
     if not re.fullmatch(r"\s*return\s+to_string\s*\(\s*%s\s*\)\s*;\s*" % ms.group(1), body):
         raise TranslateError("fvector.hh: __str__ is not to_string(self)")
     return out
-
-
-def tr_loop_buf(text, sizes):
-    r, env = tr_loop_with_env(text, "fvector.hh Buffer", sizes, "PTR", {"STRIDE": "stride"})
-    return r, env
-
-
-def tr_loop_with_env(body, what, sizes, src_name, extra):
-    # same as tr_loop, but the source index may use the (signed) element stride
-    stmts = split_statements(body, what)
-    env = {"SIZE": "size", "LEN": "len"}
-    res = {}
-    state, dstvar = 0, None
-    for st in stmts:
-        if st[0] == "simple":
-            s = st[1]
-            m = re.fullmatch(r"FV\s*\*\s*(\w+)\s*=\s*new\s+FV\s*\(\s*K\s*\(\s*(\d+)\s*\)\s*\)", s)
-            if m and state == 0:
-                dstvar, res["init"], state = m.group(1), m.group(2), 1
-                continue
-            m = re.fullmatch(r"(?:const\s+)?" + INTEGRAL + r"\s+(\w+)\s*=\s*(.*)", s)
-            if m:
-                env[m.group(1)] = "(" + Expr(normalise(m.group(2), sizes), what, env, "Nat").parse("N") + ")"
-                continue
-            if re.fullmatch(r"pybind11::buffer_info\s+\w+\s*=\s*\w+\s*\.\s*request\s*\(\s*\)", s):
-                continue
-            m = re.fullmatch(r"return\s+(\w+)", s)
-            if m and state == 2 and m.group(1) == dstvar:
-                state = 3
-                continue
-            raise TranslateError("%s: statement outside the grammar: %r" % (what, s))
-        if st[0] == "for" and state == 1:
-            head = [h.strip() for h in st[1].split(";")]
-            m = re.fullmatch(INTEGRAL + r"\s+(\w+)\s*=\s*(.*)", head[0]) if len(head) == 3 else None
-            if not m:
-                raise TranslateError("%s: for header %r" % (what, st[1]))
-            iv = m.group(1)
-            res["first"] = Expr(normalise(m.group(2), sizes), what, env, "Nat").parse("N")
-            if not re.fullmatch(r"\+\+\s*%s|%s\s*\+\+|%s\s*\+=\s*1" % (iv, iv, iv), head[2]):
-                raise TranslateError("%s: loop increment %r" % (what, head[2]))
-            m = re.fullmatch(r"%s\s*(<|!=|<=)\s*(.*)" % iv, head[1])
-            if not m:
-                raise TranslateError("%s: loop condition %r" % (what, head[1]))
-            b = Expr(normalise(m.group(2), sizes), what, env, "Nat").parse("N")
-            res["bound"] = "(%s + 1)" % b if m.group(1) == "<=" else b
-            inner = flat(st[2])
-            if len(inner) != 1 or inner[0][0] != "simple":
-                raise TranslateError("%s: loop body is not one assignment" % what)
-            m = re.fullmatch(r"\(\s*\*\s*%s\s*\)\s*\[(.*?)\]\s*=\s*%s\s*\[(.*)\]" % (dstvar, src_name), inner[0][1])
-            if not m:
-                raise TranslateError("%s: loop body outside the grammar: %r" % (what, inner[0][1]))
-            ienv = dict(env)
-            ienv[iv] = "i"
-            res["dst"] = Expr(normalise(m.group(1), sizes), what, ienv, "Nat").parse("N")
-            senv = {iv: "i"}
-            senv.update(extra)
-            res["src"] = Expr(normalise(m.group(2), sizes), what, senv, "Int").parse("N")
-            state = 2
-            continue
-        raise TranslateError("%s: unexpected statement %r" % (what, st[0]))
-    if state != 3:
-        raise TranslateError("%s: constructor does not end with `return <the vector>`" % what)
-    return res, env
 
 
 def tr_dynvector(src):
@@ -661,13 +987,27 @@ def tr_dynvector(src):
         raise TranslateError("dynvector.hh: __repr__ not found")
     body, _ = balanced(src, mr.end())
     strs = re.findall(r'"((?:[^"\\]|\\.)*)"', body)
-    v = mr.group(1)
+    v = re.escape(mr.group(1))
     shape = re.sub(r'"((?:[^"\\]|\\.)*)"', "S", " ".join(body.split()))
     shape = re.sub(r"\s+", "", shape)
-    want = ("std::stringrepr=S;for(std::size_ti=0;i<%s.size();++i)repr+=(i>0?S:S)+std::to_string(%s[i]);repr+=S;returnrepr;"
-            % (v, v))
-    if shape != want or len(strs) != 4 or strs[2] != "":
+    # `R = open; for (i = 0; i < v.size(); ++i) R += (i > 0 ? delim : "") + std::to_string(v[i]); R += close; return R;`
+    # with any names, the loop test / increment / `first entry?` test in any of their spellings, optional braces
+    mm = re.fullmatch(r"(?:std::string|auto)(?P<r>\w+)=(?:S|std::string\(S\));for\((?:std::size_t|size_t)(?P<i>\w+)=0;"
+                      r"(?:(?P=i)(?:<|!=)%s\.size\(\)|%s\.size\(\)(?:>|!=)(?P=i));(?:\+\+(?P=i)|(?P=i)\+\+|(?P=i)\+=1)\)\{?"
+                      r"(?P=r)\+=\((?P<c>[^?]*)\?S:S\)\+std::to_string\(%s\[(?P=i)\]\);\}?(?P=r)\+=S;return(?P=r);" % (v, v, v), shape)
+    if not mm or len(strs) != 4:
         raise TranslateError("dynvector.hh: __repr__ outside the grammar: %r" % shape)
+    i, c = mm.group("i"), mm.group("c")
+    c = c[1:-1] if c.startswith("(") and c.endswith(")") else c
+    if c in ("%s>0" % i, "0<%s" % i, "%s!=0" % i, "0!=%s" % i, "%s>=1" % i, "1<=%s" % i):
+        delim, first = strs[1], strs[2]
+    elif c in ("%s==0" % i, "0==%s" % i, "!%s" % i, "%s<1" % i, "1>%s" % i):
+        delim, first = strs[2], strs[1]
+    else:
+        raise TranslateError("dynvector.hh: __repr__ chooses the delimiter by %r" % c)
+    if first != "":
+        raise TranslateError("dynvector.hh: __repr__ puts %r before the first entry" % first)
+    strs = [strs[0], delim, first, strs[3]]
     out.append('/-- dynvector.hh `__repr__`: `dynOpen ++ entries joined by dynDelim ++ dynClose` -/\n'
                'def dynOpen : String := "%s"\ndef dynDelim : String := "%s"\ndef dynClose : String := "%s"\n'
                % (strs[0], strs[1], strs[3]))
@@ -720,11 +1060,20 @@ def tr_bindings(files):
         for m in re.finditer(r"\b(register\w+)\s*\(\s*pybind11::(?:class_|handle)[^{;]*?\)\s*(?:->\s*[^{;]*)?\{", src):
             tag = re.search(r"PriorityTag\s*<\s*(\d+)\s*>", m.group(0))
             sections.append((m.start(), m.group(1) + ("#" + tag.group(1) if tag else "")))
-        for m in re.finditer(r"\bcls\s*\.\s*(def_property_readonly|def_buffer|def)\s*\(", src):
-            args, end = balanced(src, m.end() - 1, "(", ")")
-            sec = base + ":" + section_of(src, m.start(), sections)
+        calls = []
+        chain = re.compile(r"\s*\.\s*(def_property_readonly|def_buffer|def)\s*\(")
+        for m in re.finditer(r"\bcls(?=\s*\.\s*(?:def_property_readonly|def_buffer|def)\s*\()", src):
+            # `cls.def( ... ).def( ... )`: every def returns the class, a chain registers in the order written
+            pos = m.end()
+            while True:
+                mc = chain.match(src, pos)
+                if not mc:
+                    break
+                args, pos = balanced(src, mc.end() - 1, "(", ")")
+                calls.append((m.start(), mc.group(1), args))
+        for start, kind, args in calls:
+            sec = base + ":" + section_of(src, start, sections)
             a = args.strip()
-            kind = m.group(1)
             mm = re.match(r'"(\w+)"\s*,\s*\[[^\]]*\]\s*\(', a)
             if kind == "def_buffer":
                 entries.append((sec, "buffer", "buffer()"))
@@ -797,7 +1146,177 @@ def translate(repo):
     yield ("DuneVerif/Gen/C20.lean", "\n".join(parts))
 
 
+# ------------------------------------------------------------------------------------------------------------------
+# self test: `python3 tr_c20.py --selftest [repo]` applies behaviour-preserving respellings (POS: the output must stay
+# byte-identical to the unchanged tree's) and behaviour-changing edits (NEG: the output must change or the translator must
+# refuse) to a temporary copy of the translated headers.  Seconds instead of the minutes a full check takes.
+# ------------------------------------------------------------------------------------------------------------------
+FILES = ["densevector.hh", "vector.hh", "fvector.hh", "dynvector.hh", "tuplevector.hh"]
+NORM = """auto normalizeIndex = [] ( const T &self, pybind11::ssize_t i ) -> std::size_t {
+          const pybind11::ssize_t size = static_cast< pybind11::ssize_t >( self.size() );
+          if( i < 0 )
+            i += size;
+          if( (i < 0) || (i >= size) )
+            throw pybind11::index_error();
+          return static_cast< std::size_t >( i );
+        };"""
+GET = """cls.def( "__getitem__", [ normalizeIndex ] ( const T &self, pybind11::ssize_t i ) -> ValueType {
+          return self[ normalizeIndex( self, i ) ];
+        }, "i"_a );"""
+SET = """cls.def( "__setitem__", [ normalizeIndex ] ( T &self, pybind11::ssize_t i, ValueType x ) {
+          self[ normalizeIndex( self, i ) ] = x;
+        }, "i"_a, "x"_a );"""
+INL = """const pybind11::ssize_t n = static_cast< pybind11::ssize_t >( v.size() );
+          if( k < 0 )
+            k += n;
+          if( (k < 0) || (k >= n) )
+            throw pybind11::index_error();"""
+LISTC = """FV *self = new FV( K( 0 ) );
+            const std::size_t sz = std::min<std::size_t>( size, x.size() );
+            // should this fail in case the sizes do not match?
+            for( std::size_t i = 0; i < sz; ++i )
+              (*self)[ i ] = x[ i ].template cast< K >();
+            return self;"""
+COPYB = """if( l.size() == 0 )
+              return FV( self );
+            FV v(K(0));
+            const std::size_t sz = std::min<std::size_t>( v.size(), l.size() );
+            // should this fail in case the sizes do not match?
+            for (std::size_t i = 0; i < sz; ++i)
+              v[i] = l[i].template cast<K>();
+            return v;"""
+BUFL = """const ssize_t sz = std::min<ssize_t>( size, info.shape[ 0 ] );
+
+          FV *self = new FV( K( 0 ) );
+          for( ssize_t i = 0; i < sz; ++i )
+            (*self)[ i ] = static_cast< K * >( info.ptr )[ i*stride ];
+          return self;"""
+DYNL = """std::size_t size = x.size();
+            DV *self = new DV( size, K( 0 ) );
+            for( std::size_t i = 0; i < size; ++i )
+              (*self)[ i ] = x[ i ].template cast< K >();
+            return self;"""
+TOSTR = """return "(" + join( ", ", [] ( auto &&x ) { return to_string( x ); }, x.begin(), x.end() ) + ")";"""
+REPR = """return "Dune::FieldVector<"+to_string(size)+">"+to_string(self);"""
+POS = [
+    ("helper function instead of closure", [("densevector.hh", NORM, ""), ("densevector.hh", "    template< class T, class... options >\n    inline static void registerDenseVector (",
+        "    template< class T >\n    inline static std::size_t normIdx ( const T &v, pybind11::ssize_t k )\n    {\n" + INL +
+        "\n      return static_cast< std::size_t >( k );\n    }\n\n    template< class T, class... options >\n    inline static void registerDenseVector ("),
+        ("densevector.hh", "[ normalizeIndex ]", "[]"), ("densevector.hh", "normalizeIndex( self, i )", "Dune::Python::normIdx( self, i )")]),
+    ("normalisation written out in both accessors", [("densevector.hh", NORM, ""),
+        ("densevector.hh", GET, 'cls.def( "__getitem__", [] ( const T &v, pybind11::ssize_t k ) -> ValueType {\n' + INL + '\n return v[ static_cast< std::size_t >( k ) ];\n }, "i"_a );'),
+        ("densevector.hh", SET, 'cls.def( "__setitem__", [] ( T &v, pybind11::ssize_t k, ValueType y ) {\n' + INL + '\n v[ static_cast< std::size_t >( k ) ] = y;\n }, "i"_a, "x"_a );')]),
+    ("named position in the accessors, by-reference capture", [("densevector.hh", "return self[ normalizeIndex( self, i ) ];", "const std::size_t pos = normalizeIndex( self, i );\n return self[ pos ];"),
+        ("densevector.hh", "self[ normalizeIndex( self, i ) ] = x;", "const auto pos = normalizeIndex( self, i );\n self[ pos ] = x;"),
+        ("densevector.hh", "[ normalizeIndex ]", "[ &normalizeIndex ]")]),
+    ("respelled tests in normalizeIndex", [("densevector.hh", "(i < 0) || (i >= size)", "!(0 <= i) || (size <= i)"), ("densevector.hh", "i += size;", "i = size + i;"),
+        ("densevector.hh", "static_cast< std::size_t >( i );\n        };", "std::size_t( i );\n        };")]),
+    ("if / else instead of two guards", [("densevector.hh", "if( (i < 0) || (i >= size) )\n            throw pybind11::index_error();\n          return static_cast< std::size_t >( i );",
+        "if( (i < 0) || (i >= size) )\n  { throw pybind11::index_error(); }\n else\n { return static_cast< std::size_t >( i ); }")]),
+    ("min as conditional expression, hoisted pointer, renamed locals (buffer)", [("fvector.hh", BUFL,
+        "const ssize_t length = info.shape[ 0 ];\n const ssize_t count = (length < size) ? length : ssize_t( size );\n const K *const entries = static_cast< K * >( info.ptr );\n"
+        "FV *self = new FV( K( 0 ) );\n for( ssize_t i = 0; i < count; ++i )\n (*self)[ i ] = entries[ i*stride ];\n return self;")]),
+    ("max-free spellings of min (buffer)", [("fvector.hh", "std::min<ssize_t>( size, info.shape[ 0 ] )", "(size > info.shape[ 0 ]) ? info.shape[ 0 ] : (ssize_t) size")]),
+    ("min by conditional assignment, while loop, auto pointer (list)", [("fvector.hh", LISTC.replace("x.size", "x.size"),
+        "auto *self = new FV( K( 0 ) );\n std::size_t n = size;\n if( x.size() < n )\n n = x.size();\n std::size_t i = 0;\n while( i < n )\n {\n (*self)[ i ] = pybind11::cast< K >( x[ i ] );\n ++i;\n }\n return self;")]),
+    ("signed divisor in the stride", [("fvector.hh", "info.strides[ 0 ] / sizeof( K )", "info.strides[ 0 ] / static_cast< ssize_t >( sizeof( K ) )")]),
+    ("copy: hoisted size, renamed, template parameter", [("fvector.hh", 'cls.def("copy", [](FV& self, pybind11::args l) {', 'cls.def( "copy", [] ( const FV &me, pybind11::args args ) {\n const std::size_t numArgs = args.size();'),
+        ("fvector.hh", COPYB, "if( numArgs == 0 )\n return FV( me );\n FV result( K( 0 ) );\n const std::size_t count = std::min< std::size_t >( size, numArgs );\n"
+         "for( std::size_t i = 0; i < count; ++i )\n result[ i ] = args[ i ].cast< K >();\n return result;")]),
+    ("copy: exit with else, empty()", [("fvector.hh", COPYB, "if( l.empty() )\n return FV( self );\n else\n {\n FV v(K(0));\n const std::size_t sz = std::min<std::size_t>( l.size(), v.size() );\n"
+         "for (std::size_t i = 0; sz > i; i++)\n v[i] = l[i].template cast<K>();\n return v;\n }")]),
+    ("copy: inverted exit", [("fvector.hh", COPYB, "if( l.size() != 0 )\n {\n FV v(K(0));\n const std::size_t sz = std::min<std::size_t>( l.size(), v.size() );\n"
+         "for (std::size_t i = 0; i != sz; i += 1)\n v[i] = l[i].template cast<K>();\n return v;\n }\n return self;")]),
+    ("dynvector: const size, value first", [("dynvector.hh", "std::size_t size = x.size();", "const auto size = x.size();")]),
+    ("dynvector: bound read back from the allocated vector, while loop", [("dynvector.hh", DYNL,
+        "const auto length = x.size();\n auto *self = new DV( length, K( 0 ) );\n std::size_t pos = 0;\n while( pos != self->size() )\n {\n"
+        " (*self)[ pos ] = pybind11::cast< K >( x[ pos ] );\n ++pos;\n }\n return self;")]),
+    ("strings built in named steps", [("fvector.hh", TOSTR, "const std::string entries = join( \", \", [] ( auto &&x ) { return to_string( x ); }, x.begin(), x.end() );\n"
+        " std::string result = \"(\";\n result += entries;\n result += \")\";\n return result;"),
+        ("fvector.hh", REPR, "const std::string typeName = \"Dune::FieldVector<\" + to_string( size ) + \">\";\n return typeName + to_string( self );"),
+        ("fvector.hh", "return to_string( self ); } );", "const auto text = to_string( self ); return text; } );")]),
+    ("dynvector repr: renamed, first-entry test inverted, braces", [("dynvector.hh", "[] (const DV &v) {\n            std::string repr =", "[] (const DV &vec) {\n            std::string text ="),
+        ("dynvector.hh", "for (std::size_t i = 0; i < v.size(); ++i)\n              repr += (i > 0 ? \", \" : \"\") + std::to_string(v[i]);\n\n            repr += \")\";\n\n            return repr;",
+         "for (std::size_t k = 0; vec.size() != k; k++)\n {\n text += (k == 0 ? \"\" : \", \") + std::to_string(vec[k]);\n }\n text += \")\";\n return text;")]),
+    ("buffer checks as if / else-if chain", [("fvector.hh", "if( info.ndim != 1 )", "else if( !(info.ndim == 1) )")]),
+    ("chained registrations", [("vector.hh", "{ return self.one_norm(); } );\n        cls.def_property_readonly(", "{ return self.one_norm(); } )\n  .def_property_readonly("),
+        ("densevector.hh", "cls.def( pybind11::self == pybind11::self );\n      cls.def(", "cls.def( pybind11::self == pybind11::self )\n .def("),
+        ("fvector.hh", 'cls.def( "__str__", [] ( const FV &self ) { return to_string( self ); } );\n      cls.def(', 'cls.def( "__str__", [] ( const FV &self ) { return to_string( self ); } )\n .def(')]),
+]
+NEG = [
+    ("setitem(int_) returns silently", [("densevector.hh", "[] ( T &, pybind11::int_, ValueType ) { throw pybind11::index_error(); }", "[] ( T &, pybind11::int_, ValueType ) { return; }")]),
+    ("tuple constructor starts from one", [("fvector.hh", "[] ( pybind11::tuple x ) {\n          FV *self = new FV( K( 0 ) );", "[] ( pybind11::tuple x ) {\n          FV *self = new FV( K( 1 ) );")]),
+    ("buffer constructor fills backwards", [("fvector.hh", "(*self)[ i ] = static_cast< K * >( info.ptr )", "(*self)[ sz-1-i ] = static_cast< K * >( info.ptr )")]),
+    ("dyn repr delimiter test", [("dynvector.hh", "i > 0 ?", "i > 1 ?")]),
+    ("extra overload", [("densevector.hh", 'cls.def( "__len__"', 'cls.def( "__rsub__", [] ( const T &self, pybind11::tuple x ) { return self; } );\n cls.def( "__len__"')]),
+    ("upper bound test off by one", [("densevector.hh", "(i >= size)", "(i > size)")]),
+    ("no shift of negative indices", [("densevector.hh", "i += size;", "i += 0;")]),
+    ("shift by size-1", [("densevector.hh", "i += size;", "i += size - 1;")]),
+    ("setitem normalises differently", [("densevector.hh", SET, 'cls.def( "__setitem__", [] ( T &self, pybind11::ssize_t i, ValueType x ) {\n if( (i < 0) || (i >= ssize_t( self.size() )) )\n throw pybind11::index_error();\n self[ i ] = x;\n }, "i"_a, "x"_a );')]),
+    ("unsigned index parameter", [("densevector.hh", "[ normalizeIndex ] ( const T &self, pybind11::ssize_t i )", "[ normalizeIndex ] ( const T &self, std::size_t i )")]),
+    ("getitem of another object", [("densevector.hh", "return self[ normalizeIndex( self, i ) ];", "return self[ normalizeIndex( self, i + 1 ) ];")]),
+    ("conditional expression is max", [("fvector.hh", "std::min<ssize_t>( size, info.shape[ 0 ] )", "(size > info.shape[ 0 ]) ? (ssize_t) size : info.shape[ 0 ]")]),
+    ("conditional assignment is max", [("fvector.hh", LISTC, "FV *self = new FV( K( 0 ) );\n std::size_t n = size;\n if( x.size() > n )\n n = x.size();\n for( std::size_t i = 0; i < n; ++i )\n (*self)[ i ] = x[ i ].template cast< K >();\n return self;")]),
+    ("bound without min", [("fvector.hh", "std::min<std::size_t>( size, args.size() )", "args.size()")]),
+    ("source shifted", [("fvector.hh", "(*self)[ i ] = args[ i ]", "(*self)[ i ] = args[ i+1 ]")]),
+    ("first index one", [("fvector.hh", "for( std::size_t i = 0; i < sz; ++i )\n              (*self)[ i ] = args", "for( std::size_t i = 1; i < sz; ++i )\n              (*self)[ i ] = args")]),
+    ("stride multiplied", [("fvector.hh", "info.strides[ 0 ] / sizeof( K )", "info.strides[ 0 ] * sizeof( K )")]),
+    ("initializer-list construction", [("fvector.hh", "FV v(K(0));", "FV v{K(0)};")]),
+    ("assignment to the pointer's i-th object", [("fvector.hh", "(*self)[ i ] = args[ i ]", "self[ i ] = args[ i ]")]),
+    ("while loop stepping by two", [("fvector.hh", LISTC, "FV *self = new FV( K( 0 ) );\n const std::size_t sz = std::min<std::size_t>( size, x.size() );\n std::size_t i = 0;\n while( i < sz )\n {\n (*self)[ i ] = x[ i ].template cast< K >();\n i += 2;\n }\n return self;")]),
+    ("copy exit inverted wrongly", [("fvector.hh", "if( l.size() == 0 )", "if( l.size() != 0 )")]),
+    ("format check dropped", [("fvector.hh", 'if( info.format != pybind11::format_descriptor< K >::format() )\n            throw pybind11::value_error( "Incompatible buffer format." );', "")]),
+    ("hoisted pointer is something else", [("fvector.hh", BUFL, BUFL.replace("FV *self", "const K *entries = static_cast< K * >( info.ptr ) + 1;\n FV *self").replace("static_cast< K * >( info.ptr )[", "entries["))]),
+    ("hoisted pointer is advanced", [("fvector.hh", BUFL, BUFL.replace("FV *self", "const K *entries = static_cast< K * >( info.ptr );\n ++entries;\n FV *self").replace("static_cast< K * >( info.ptr )[", "entries["))]),
+    ("string constant", [("fvector.hh", '", "', '","')]),
+    ("dynvector repr: branches of the first-entry test swapped", [("dynvector.hh", '(i > 0 ? ", " : "")', '(i > 0 ? "" : ", ")')]),
+    ("dynvector repr: entries of another vector position", [("dynvector.hh", "std::to_string(v[i])", "std::to_string(v[0])")]),
+    ("string steps with another closing", [("fvector.hh", TOSTR, "std::string result = \"(\";\n result += join( \", \", [] ( auto &&x ) { return to_string( x ); }, x.begin(), x.end() );\n result += \"]\";\n return result;")]),
+    ("string steps in another order", [("fvector.hh", REPR, "const std::string typeName = \"Dune::FieldVector<\" + to_string( size ) + \">\";\n return to_string( self ) + typeName;")]),
+    ("dynvector allocates one more", [("dynvector.hh", DYNL, "const auto length = x.size();\n auto *self = new DV( length + 1, K( 0 ) );\n"
+        " for( std::size_t i = 0; i < self->size(); ++i )\n (*self)[ i ] = x[ i ].template cast< K >();\n return self;")]),
+    ("else-if chain without the dimension check", [("fvector.hh", "if( info.ndim != 1 )", "else if( false )")]),
+    ("chain registers an overload twice", [("vector.hh", "{ return self.one_norm(); } );", "{ return self.one_norm(); } )\n .def_property_readonly( \"one_norm\", [] ( const T &self ) { return self.two_norm(); } );")]),
+    ("getitem reads the neighbour of the named position", [("densevector.hh", "return self[ normalizeIndex( self, i ) ];", "const std::size_t p = normalizeIndex( self, i );\n return self[ p + 1 ];")]),
+]
+
+
+def selftest(repo):
+    import tempfile
+    import shutil
+    base = "".join(c for _, c in translate(repo))
+    bad = 0
+    for want_same, cases in ((True, POS), (False, NEG)):
+        for title, edits in cases:
+            tmp = tempfile.mkdtemp(prefix="tr_c20_")
+            try:
+                d = os.path.join(tmp, "dune/python/common")
+                os.makedirs(d)
+                for f in FILES:
+                    shutil.copy(os.path.join(repo, "dune/python/common", f), d)
+                for f, old, new in edits:
+                    fn = os.path.join(d, f)
+                    txt = open(fn, encoding="utf-8").read()
+                    if old not in txt:
+                        raise RuntimeError("selftest %r: text to replace not found in %s: %r" % (title, f, old[:50]))
+                    open(fn, "w", encoding="utf-8").write(txt.replace(old, new))
+                try:
+                    out = "".join(c for _, c in translate(tmp))
+                    verdict = "same" if out == base else "different"
+                except TranslateError as ex:
+                    verdict = "refused (%s)" % ex
+                ok = (verdict == "same") == want_same
+                bad += not ok
+                print("%s %s %-70s %s" % ("ok  " if ok else "FAIL", "POS" if want_same else "NEG", title, verdict[:150]))
+            finally:
+                shutil.rmtree(tmp)
+    print("selftest: %d POS, %d NEG, %d wrong" % (len(POS), len(NEG), bad))
+    return bad
+
+
 if __name__ == "__main__":
     import sys
+    if len(sys.argv) > 1 and sys.argv[1] == "--selftest":
+        sys.exit(1 if selftest(sys.argv[2] if len(sys.argv) > 2 else "/repo") else 0)
     for p, c in translate(sys.argv[1] if len(sys.argv) > 1 else "/repo"):
         sys.stdout.write(c)
